@@ -346,3 +346,46 @@ ob("C16", "P3.bulk_upsert_history", {"m1": R(1, 7), "m2": R(1, 7), "strpk": BOOL
    funcs=["cdd.compound.openapi.gen_routes.gen_routes", "cdd.compound.openapi.gen_routes.upsert_routes", "cdd.compound.openapi.gen_openapi.openapi_bulk"],
    bound="history: one routes file receives the routes of CRUD subset m1 and then of CRUD subset m2 (every pair of non-empty subsets, int or str primary key; solver-enumerated): the file is "
          "valid Python, every handler keeps its decorator, and the OpenAPI document built from it has exactly the operations of m1 | m2, closed $refs, the template parameter declared")(bulk_upsert_history)
+
+
+# P4: TWO models share one routes file; one route is a textual PREFIX of the other ('/api/user' vs '/api/usergroup') ---------------------------------------
+def two_models_one_file(m1, m2, order, prefix):
+    import cdd.sqlalchemy.emit  # noqa: F401  (import order: see C18 in DESIGN.md)
+    from cdd.compound.openapi.gen_openapi import openapi_bulk
+    from cdd.compound.openapi.gen_routes import gen_routes, upsert_routes
+
+    names = ("User", "Usergroup") if prefix else ("User", "Account")
+    if order:
+        names = names[::-1]
+    _N[0] += 1
+    d = os.path.join(_ROOT, "t%d" % _N[0])
+    os.mkdir(d)
+    try:
+        routes_path = os.path.join(d, "routes.py")
+        model_paths = []
+        for name, m in zip(names, (m1, m2)):
+            mp = os.path.join(d, "model_%s.py" % name.lower())
+            with open(mp, "wt") as f:
+                f.write(MODEL_SRC % {"name": name, "pk": "id", "table": name.lower() + "_tbl", "pktype": "Integer"})
+            model_paths.append(mp)
+            routes, primary_key = gen_routes(app="rest_api", model_path=mp, model_name=name, crud=crud_of(m), route="/api/" + name.lower())
+            upsert_routes(app="rest_api", routes=list(routes), routes_path=routes_path, route="/api/" + name.lower(), primary_key=primary_key)
+        doc = openapi_bulk(app_name="rest_api", model_paths=tuple(model_paths), routes_paths=(routes_path,))
+    finally:
+        shutil.rmtree(d, ignore_errors=True)
+    dd = closed(doc["components"], doc["paths"])
+    if dd:
+        return dd
+    for name, m in zip(names, (m1, m2)):
+        dd = ops_match(doc["paths"], "/api/" + name.lower(), "id", m, item_always=False)
+        if dd:
+            return "%s (requested %s, written %s): %s" % (name, crud_of(m), "first" if name == names[0] else "second", dd)
+        if (m & 1) and (name + "Body") not in doc["components"]["requestBodies"]:
+            return "%s: request body for Create is not defined" % name
+    return ""
+
+
+ob("C16", "P4.two_models_one_file", {"m1": R(1, 7), "m2": R(1, 7), "order": BOOL, "prefix": BOOL}, enum=True, T=1500, tpath=120,
+   funcs=["cdd.compound.openapi.gen_routes.gen_routes", "cdd.compound.openapi.gen_routes.upsert_routes", "cdd.compound.openapi.gen_openapi.openapi_bulk"],
+   bound="history: two models are upserted one after the other into ONE routes file; their routes are '/api/user' and '/api/usergroup' (one a textual prefix of the other) or unrelated, "
+         "in either order, every pair of non-empty CRUD subsets (solver-enumerated): each model has exactly its requested operations, closed $refs, request bodies defined")(two_models_one_file)
